@@ -50,9 +50,11 @@ TYPES = {
     "float": dict(c="float", bits=32, k="r", f="real(C_FLOAT)", fk="_C_FLOAT", py="float"),
     "double": dict(c="double", bits=64, k="r", f="real(C_DOUBLE)", fk="_C_DOUBLE", py="float"),
     "bool": dict(c="bool", bits=8, k="b", f="logical", fk="", py="bool"),
+    # a single character: an 8-bit integer in the trace, character(kind=C_CHAR) in Fortran; values stay printable
+    "char": dict(c="char", bits=8, signed=True, k="i", f="character(kind=C_CHAR)", fk="", py="str", char=True),
 }
 KINDS_FOR_USE = {"int": "C_INT", "long": "C_LONG", "short": "C_SHORT", "long long": "C_LONG_LONG", "unsigned int": "C_INT",
-                 "size_t": "C_SIZE_T", "int32_t": "C_INT32_T", "int64_t": "C_INT64_T", "float": "C_FLOAT", "double": "C_DOUBLE"}
+                 "size_t": "C_SIZE_T", "int32_t": "C_INT32_T", "int64_t": "C_INT64_T", "float": "C_FLOAT", "double": "C_DOUBLE", "char": "C_CHAR"}
 
 IN_KINDS = {"cls_cptr", "val", "ptr_in", "ptr_inout", "ref_inout", "arr_in", "arr_inout", "implied", "cstr_in", "cstr_inout", "str_cref",
             "str_val", "str_cptr", "str_ref_inout", "str_ptr_inout", "vec_in", "vec_inout"}
@@ -140,6 +142,8 @@ def dmix(d, h):
 
 def out_scalar(d, T):
     t = TYPES[T]
+    if t.get("char"):
+        return 33 + (d % 94)
     if t["k"] == "i":
         return wrap_int(d, T)
     if t["k"] == "r":
@@ -164,6 +168,16 @@ def out_string(d, maxlen):
     if maxlen >= 0:
         s = s[:maxlen]
     return s
+
+
+def arr_out_count(p, args):
+    """Number of elements of an intent(out) array whose extents are a parameter name or expressions of the arguments."""
+    if p.get("dims"):
+        n = 1
+        for x in p["dims"]:
+            n *= int(eval(x, {}, dict(args)))
+        return n
+    return args[p["dim"]]
 
 
 def default_value(p):
@@ -208,7 +222,7 @@ def param_decl(p):
     if k == "arr_inout":
         return "%s *%s +rank(1)+intent(inout)" % (T, n)
     if k == "arr_out":
-        return "%s *%s +intent(out)+dimension(%s)" % (T, n, p["dim"])
+        return "%s *%s +intent(out)+dimension(%s)" % (T, n, ",".join(p["dims"]) if p.get("dims") else p["dim"])
     if k == "arr_out_fixed":
         return "%s *%s +intent(out)+dimension(%d)" % (T, n, p["K"])
     if k == "cstr_in":
@@ -374,6 +388,8 @@ def log_scalar(T, name, expr):
 
 def out_expr(T, dexpr):
     t = TYPES[T]
+    if t.get("char"):
+        return "(char)(33 + (%s) %% 94ULL)" % dexpr
     if t["k"] == "i":
         return "(%s)(%s)" % (t["c"], dexpr)
     if t["k"] == "r":
@@ -456,7 +472,7 @@ def impl_function(f, lang, qual=""):
             lines.append("    %s = %s; %s" % (n, out_expr(T, d), log_scalar(T, n, n)))
         elif k in ("arr_inout", "arr_out"):
             _, lf, ff = arr_fns(T)
-            cnt = p["n"] if k == "arr_inout" else p["dim"]
+            cnt = p["n"] if k == "arr_inout" else (" * ".join("(long)(%s)" % x for x in p["dims"]) if p.get("dims") else p["dim"])
             lines.append('    %s(%s, (long)%s, %s); %s("%s", %s, (long)%s);' % (ff, n, cnt, d, lf, n, n, cnt))
         elif k == "arr_out_fixed":
             _, lf, ff = arr_fns(T)
@@ -743,7 +759,7 @@ def model_call(f, args, this_serial=None):
             if k == "arr_inout":
                 cnt = len(args[n])
             elif k == "arr_out":
-                cnt = args[p["dim"]]
+                cnt = arr_out_count(p, args)
             else:
                 cnt = p["K"]
             v = [out_scalar(sub(dk, 1000 + i), T) for i in range(cnt)]
